@@ -194,12 +194,18 @@ Proof.
   constructor; [constructor; discriminate|constructor; [constructor; discriminate|constructor]].
 Qed.
 
+Lemma fits_vuint (o : option N) : match o with Some n => n < two64 | None => True end -> fits (KUint None) (vuint o).
+Proof.
+  destruct o as [n|]; intros H; [|constructor]. cbn [vuint].
+  apply (fits_uint None n (nni_width n)); [reflexivity|apply nni_width_bound; exact H].
+Qed.
+
 Lemma fits_cert_meta : fits (KModel ndn_format_0_3_MetaInfo false) cert_meta.
 Proof.
   unfold cert_meta. constructor.
-  constructor; [|constructor; [|constructor; [constructor|constructor]]]; cbn [snd vuint cert_content_type cert_freshness].
-  - apply (fits_uint None 2 1%nat); reflexivity.
-  - apply (fits_uint None 3600000 4%nat); reflexivity.
+  constructor; [|constructor; [|constructor; [constructor|constructor]]]; cbn [snd]; apply fits_vuint.
+  - unfold cert_content_type, two64. lia.
+  - unfold cert_freshness, two64. lia.
 Qed.
 
 Lemma cert_fits name pub written nb na sv :
